@@ -2806,6 +2806,9 @@ class SEVM:
         for addr in ex.code:
             ex.path.append(new_addr != addr)  # ensure new address is fresh
 
+        # a symbolic address that was resolved to "no existing account" may denote the new account
+        ex.alias = {k: v for k, v in ex.alias.items() if v is not None}
+
         # backup current state
         orig_code = ex.code.copy()
         orig_storage = deepcopy(ex.storage)
